@@ -18,7 +18,7 @@ FORBIDDEN = re.compile(
     r"type-in-type|impredicative-set|native_compute)\b")
 
 # source-to-Gallina translators run before every build (besides the constants reader and the pipeline translator)
-TRANSLATORS = ["info_from_source.py", "imp_from_source.py", "fea_from_source.py"]
+TRANSLATORS = ["info_from_source.py", "imp_from_source.py", "fea_from_source.py", "name_from_source.py"]
 
 TRUSTED_BASE = [
     "Coq 8.16.1 kernel (coqc); vm_compute used for case evaluation and closed witnesses; no native_compute",
@@ -28,6 +28,7 @@ TRUSTED_BASE = [
     "harness/info_from_source.py (AST translator: the vertical-metric fallback functions, getAttrWithFallback, specialFallbacks / staticFallbackData of fontInfoData.py -> Generated/InfoFallbacks.v, fail-closed; proved equal to the hand model that the C16 correspondence runs against the real functions, and to the documented fallbacks)",
     "harness/imp_from_source.py (AST translator for an imperative fragment -- lists / sets of names and insertion-ordered dicts mutated inside if / nested for, continue, raise: util.makeOfficialGlyphOrder and util.makeUnicodeToGlyphNameMapping, and the variation-sequence loop inside BaseOutlineCompiler.setupTable_cmap -> Generated/Imp.v, fail-closed; proved equal to the hand models of Order/GlyphOrder.v and Order/Uvs.v)",
     "harness/fea_from_source.py (AST translator for two functions that build / read lists of feaLib statements: featureWriters/ast.addLookupReferences and BaseFeatureWriter._contextAt -> Generated/FeaGen.v, fail-closed; proved equal to the hand models of Fea/LookupRefs.v and Fea/Context.v)",
+    "harness/name_from_source.py (AST translator for a dict-comprehension fragment: InfoCompiler.setupTable_name, the merge of a variable font's overridden name records into the default source's name table -> Generated/NameMergeGen.v, fail-closed; proved equal to the hand model of Info/NameMerge.v)",
     "Python harness: generators, font builders, observers, Gallina term printer (harness/gterm.py)",
     "fontTools/ufoLib2/defcon behaviour is modelled or observed, not verified",
 ]
